@@ -52,6 +52,13 @@ static int run_case(const struct kase *k, struct res *r, int verbose) {
     if (n >= PSTR || b.out[n] != 0 || strlen(b.out) != n) FAIL("length", "encode returned %zu but strlen is %zu", n, strnlen(b.out, PSTR));
     for (size_t i = 0; i < n; i++) dg = mix64(dg, (uint8_t)b.out[i]);
     char refph[2048]; size_t rn = ref_phrase(&k->r, k->li, k->coin, refph, 0);
+    /* the same object written for another coin in another language, then for this coin again: a phrase is a function of (seed, language, coin),
+     * not of what the object was asked for before */
+    { polyseed_str oc; unsigned c2 = ((unsigned)k->coin ^ 0x2A5u) & 2047u; int l2 = (k->li + 1) % NL; size_t no = polyseed_encode(s, polyseed_get_lang(l2), (polyseed_coin)c2, oc); r->calls++;
+      char rp2[2048]; size_t rn2 = ref_phrase(&k->r, l2, c2, rp2, 0);
+      if (no != rn2 || memcmp(oc, rp2, rn2 + 1)) FAIL("second-coin", "the same seed object encoded for a second coin (%u, language %s) writes \"%.120s\" instead of \"%.120s\"", c2, RL[l2].code, oc, rp2);
+      size_t nb = polyseed_encode(s, lang, k->coin, oc); r->calls++;
+      if (nb != n || memcmp(oc, b.out, n + 1)) FAIL("re-encode", "encoding the same object for the first coin again, after another coin, writes another phrase"); }
     if (ORACLE == 3) {
         if (rn != n || memcmp(refph, b.out, n)) FAIL("phrase", "phrase differs from the reference: got \"%.150s\" expected \"%.150s\"", b.out, refph);
         uint8_t st2[32]; polyseed_store(s, st2); r->calls++;
